@@ -1,5 +1,6 @@
 """C14 -- shipped routing-policy generators emit ACL-covered, self-consistent config (structural clauses)."""
 import ast
+import re
 
 from sa import absrow, guards as G
 from sa.flow import GuardMap, Provenance, Typestate
@@ -351,12 +352,14 @@ def r3(c):
         for (rnode, rmod, trace, _st) in s.inner:
             msg = norm(rnode.exc)[:90] if isinstance(rnode, ast.Raise) and rnode.exc is not None else norm(rnode)[:90]
             owner = repo.enclosing_func(rnode)
-            key = (q, owner.name if owner else "?", msg)
+            # the finding's identity does not depend on how a local inside the message is spelled
+            msg_key = re.sub(r"\{[^{}]*\}", "{}", msg)
+            key = (q, owner.name if owner else "?", msg_key)
             if key in reported:
                 continue
             reported.add(key)
             c.violated("C14.R3", f"{rmod.rel}:{rnode.lineno}", f"{q}->{owner.name if owner else '?'}", f"`{msg}` is reachable after lines of the same condition/action/list were already yielded "
-                       "(the error comes after, not before, the emitted lines)", key_text=msg, path=[t for t in trace if t][-14:])
+                       "(the error comes after, not before, the emitted lines)", key_text=msg_key, path=[t for t in trace if t][-14:])
 
 
 def _call_sources(repo, m, cls, fn, expr, depth):
